@@ -1,5 +1,6 @@
 CONSTANTS
   NK = 2
+  SplitBigRecords = FALSE
   MaxOps = 3
   MaxCrashes = 1
   WalN = 2
